@@ -1,5 +1,5 @@
 /* console_drv.c - conformance driver for librfn/console.c (C15).
- *   Reset | Reg <n codes...> | Char c path | Eval <n codes...> | Streams maxlen | Random seed n | RegOrders seed
+ *   Reset | Reg <n codes...> | Char c path | Eval <n codes...> | Streams maxlen | Random seed n | RegOrders seed | Twos seed n
  * The console structure lives on the heap (ASan redzones around it).  Commands registered by the driver capture
  * argc/argv (and check that every argv[i] is a NUL-terminated string inside the line buffer), then yield a few times. */
 #define _GNU_SOURCE
@@ -16,32 +16,41 @@ static FILE *devnull;
 static char *obuf; static size_t olen, oseen;   /* everything the console prints (open_memstream) */
 static uint32_t now;
 
-/* ---- captured dispatches ---- */
-static char dbuf[1 << 16];
-static size_t dlen;
-static int ndisp;
-#define D(...) (dlen += snprintf(dbuf + dlen, sizeof(dbuf) - dlen, __VA_ARGS__))
-static void jstr(const char *s) { D("["); for (int i = 0; s[i]; i++) D("%s%u", i ? "," : "", (unsigned char)s[i]); D("]"); }
+/* ---- captured dispatches ----
+ * Two command functions (capture0/capture1, chosen by the sum of the name's character codes) share one body; every entry
+ * into either is logged with the console it was entered for, so that "the function that runs is the one registered under
+ * the dispatched name" is checked at every resumption, also when two consoles are active.  Commands whose name ends in
+ * 'b' use the scratch buffer for their own state once they have read their arguments (console.h allows exactly that). */
+static console_t *con2;
+static struct cap { char d[1 << 16]; size_t dlen; int ndisp; char calls[1 << 14]; size_t clen; int ncalls; int yields_left; } cap[2];
+#define D(...) (k->dlen += snprintf(k->d + k->dlen, sizeof(k->d) - k->dlen, __VA_ARGS__))
+static void jstr(struct cap *k, const char *s) { D("["); for (int i = 0; s[i]; i++) D("%s%u", i ? "," : "", (unsigned char)s[i]); D("]"); }
+static void cap_clear(void) { for (int i = 0; i < 2; i++) { cap[i].dlen = 0; cap[i].ndisp = 0; cap[i].d[0] = 0; cap[i].clen = 0; cap[i].ncalls = 0; cap[i].calls[0] = 0; } }
 static int inside(console_t *c, const char *p)
 {
 	if (p < c->scratch.buf || p >= c->scratch.buf + sizeof(c->scratch.buf)) return 0;
 	return memchr(p, 0, (size_t)(c->scratch.buf + sizeof(c->scratch.buf) - p)) != NULL;
 }
-static int yields_left;
-static pt_state_t capture(console_t *c)
+static pt_state_t capture_body(console_t *c, int fnid)
 {
+	struct cap *k = &cap[c == con2];
+	k->clen += snprintf(k->calls + k->clen, sizeof(k->calls) - k->clen, "%s%d", k->ncalls++ ? "," : "", fnid);
 	PT_BEGIN(&c->pt);
-	D("%s{\"name\":", ndisp++ ? "," : "");
-	jstr(c->cmd->name);
+	D("%s{\"name\":", k->ndisp++ ? "," : "");
+	jstr(k, c->cmd->name);
 	D(",\"argc\":%d,\"ok\":%d,\"argv\":[", c->argc, inside(c, c->argv[0]) && inside(c, c->argv[1]) && inside(c, c->argv[2]) && inside(c, c->argv[3]));
-	for (int i = 0; i < 4; i++) { D("%s", i ? "," : ""); if (inside(c, c->argv[i])) jstr(c->argv[i]); else D("[0]"); }
+	for (int i = 0; i < 4; i++) { D("%s", i ? "," : ""); if (inside(c, c->argv[i])) jstr(k, c->argv[i]); else D("[0]"); }
 	D("]}");
-	yields_left = (int)(strlen(c->cmd->name) % 3);          /* exit at once, or yield once or twice */
-	while (yields_left-- > 0)
+	k->yields_left = (int)(strlen(c->cmd->name) % 3);       /* exit at once, or yield once or twice */
+	if (c->cmd->name[strlen(c->cmd->name) - 1] == 'b')
+		memset(c->scratch.u8, 'Z', sizeof(c->scratch.u8));   /* command state kept in the scratch buffer */
+	while (k->yields_left-- > 0)
 		PT_YIELD();
 	PT_FAIL_ON(c->cmd->name[0] == 'c');                      /* commands named c... fail: "Command failed" */
 	PT_END();
 }
+static pt_state_t capture0(console_t *c) { return capture_body(c, 0); }
+static pt_state_t capture1(console_t *c) { return capture_body(c, 1); }
 
 #define MAXCMD 64
 static console_cmd_t cmds[MAXCMD];
@@ -60,7 +69,7 @@ static void reset(void)
 	devnull = open_memstream(&obuf, &olen);
 	console_init(con, devnull);
 	now = 0;
-	dlen = 0; ndisp = 0; dbuf[0] = 0;
+	cap_clear();
 	printf("{\"e\":\"Reset\"}\n");
 }
 static void out_json(void)
@@ -73,14 +82,15 @@ static void out_json(void)
 	printf("],");
 	oseen = olen;
 }
-static void line_json(void)
+static void line_json_of(console_t *c, const char *key)
 {
-	printf("\"line\":[");
-	int n = (int)(con->bufp - con->scratch.buf);
+	printf("\"%s\":[", key);
+	int n = (int)(c->bufp - c->scratch.buf);
 	if (n < 0 || n > 80) n = 0;
-	for (int i = 0; i < n; i++) printf("%s%u", i ? "," : "", (unsigned char)con->scratch.buf[i]);
+	for (int i = 0; i < n; i++) printf("%s%u", i ? "," : "", (unsigned char)c->scratch.buf[i]);
 	printf("]");
 }
+static void line_json(void) { line_json_of(con, "line"); }
 static void settle(void)
 {
 	for (int i = 0; i < 200; i++) {
@@ -95,7 +105,8 @@ static void do_reg(const unsigned char *name, int n)
 	int r = -2;
 	if (ncmds < MAXCMD) {
 		cmds[ncmds].name = s;
-		cmds[ncmds].fn = capture;
+		int sum = 0; for (int i = 0; i < n; i++) sum += name[i];
+		cmds[ncmds].fn = (sum % 2) ? capture1 : capture0;
 		r = console_register(&cmds[ncmds]);
 		ncmds++;
 	}
@@ -105,10 +116,10 @@ static void do_reg(const unsigned char *name, int n)
 }
 static void do_char(int ch, int path)
 {
-	dlen = 0; ndisp = 0; dbuf[0] = 0;
+	cap_clear();
 	if (path == 0) console_process(con, (char)ch);
 	else { console_putchar(con, (char)ch); settle(); }
-	printf("{\"e\":\"Char\",\"c\":%d,\"path\":%d,\"disp\":[%s],", ch, path, dbuf);
+	printf("{\"e\":\"Char\",\"c\":%d,\"path\":%d,\"disp\":[%s],\"calls\":[%s],", ch, path, cap[0].d, cap[0].calls);
 	out_json();
 	line_json();
 	printf("}\n");
@@ -129,7 +140,7 @@ static void do_eval(const unsigned char *s, int n)
 {
 	char *str = malloc(n + 1);
 	memcpy(str, s, n); str[n] = 0;
-	dlen = 0; ndisp = 0; dbuf[0] = 0;
+	cap_clear();
 	evalstr = str; evaldone = 0;
 	PT_INIT(&evalpt);
 	fibre_init(&evalfibre, evalfn);
@@ -137,7 +148,7 @@ static void do_eval(const unsigned char *s, int n)
 	settle();
 	printf("{\"e\":\"Eval\",\"s\":[");
 	for (int i = 0; i < n; i++) printf("%s%u", i ? "," : "", s[i]);
-	printf("],\"done\":%d,\"disp\":[%s],", evaldone, dbuf);
+	printf("],\"done\":%d,\"disp\":[%s],\"calls\":[%s],", evaldone, cap[0].d, cap[0].calls);
 	out_json();
 	line_json();
 	printf("}\n");
@@ -193,6 +204,67 @@ static void randoms(long seed, int n)
 		}
 	}
 }
+
+/* two consoles, each with its own fibre, stream and line: a line is typed into each, character by character in turn, and
+ * the scheduler runs either once both lines are complete (mode 0: the two commands' yields interleave) or after every
+ * pair of characters (mode 1) */
+static void codes(const char *key, const unsigned char *s, int n)
+{
+	printf("\"%s\":[", key);
+	for (int i = 0; i < n; i++) printf("%s%u", i ? "," : "", s[i]);
+	printf("],");
+}
+static void do_two(const unsigned char *a, int na, const unsigned char *b, int nb, int mode)
+{
+	char *o2 = NULL; size_t o2len = 0;
+	FILE *f2 = open_memstream(&o2, &o2len);
+	con2 = malloc(sizeof(*con2));
+	console_init(con2, f2);
+	settle();
+	cap_clear();
+	for (int i = 0; i < na || i < nb; i++) {
+		if (i < na) console_putchar(con, (char)a[i]);
+		if (i < nb) console_putchar(con2, (char)b[i]);
+		if (mode) settle();
+	}
+	settle();
+	printf("{\"e\":\"Two\",\"mode\":%d,", mode);
+	codes("la", a, na); codes("lb", b, nb);
+	printf("\"da\":[%s],\"db\":[%s],\"ca\":[%s],\"cb\":[%s],", cap[0].d, cap[1].d, cap[0].calls, cap[1].calls);
+	line_json_of(con, "line"); printf(","); line_json_of(con2, "lineb");
+	printf("}\n");
+	fflush(devnull); oseen = olen;             /* output of this event is not judged */
+	fibre_kill(&con2->fibre);
+	fibre_run(&con->fibre); settle();          /* the scheduler remembers the fibre it ran last: make that the surviving console's */
+	fclose(f2); free(o2);
+	free(con2); con2 = NULL;
+}
+static void twos(long seed, int n)
+{
+	unsigned char a[16], b[16];
+	drv_srand(seed);
+	for (int x = 0; x < n; x++) {
+		if (x % 25 == 0) {
+			reset();
+			static const char *fixed[] = { "ab", "b", "a", "cab" };           /* differing functions, yield counts, a failing one */
+			for (int k = 0; k < 4; k++) do_reg((const unsigned char *)fixed[k], (int)strlen(fixed[k]));
+			int nr = drv_below(4);
+			for (int k = 0; k < nr; k++) { unsigned char nm[3]; int l = 1 + drv_below(3); for (int j = 0; j < l; j++) nm[j] = 97 + drv_below(3); do_reg(nm, l); }
+		}
+		unsigned char *ln[2] = { a, b }; int len[2];
+		for (int w = 0; w < 2; w++) {
+			int l = 0;
+			if (drv_below(8)) { int idx = drv_below(ncmds); l = (int)strlen(cmds[idx].name); memcpy(ln[w], cmds[idx].name, l); }
+			int extra = drv_below(14 - l);
+			gen_line(ln[w] + l, extra);
+			for (int i = l; i < l + extra; i++) if (ln[w][i] == 3) ln[w][i] = 32;
+			l += extra;
+			ln[w][l++] = 10;
+			len[w] = l;
+		}
+		do_two(a, len[0], b, len[1], x & 1);
+	}
+}
 static void regorders(long seed)
 {
 	drv_srand(seed);
@@ -228,6 +300,7 @@ int main(void)
 		else if (drv_is(&c, "Streams")) streams(drv_arg(&c, 0), drv_arg(&c, 1));
 		else if (drv_is(&c, "Random")) randoms(drv_arg(&c, 0), drv_arg(&c, 1));
 		else if (drv_is(&c, "RegOrders")) regorders(drv_arg(&c, 0));
+		else if (drv_is(&c, "Twos")) twos(drv_arg(&c, 0), drv_arg(&c, 1));
 		else { fprintf(stderr, "console_drv: unknown command %s\n", c.tok[0]); return 3; }
 	}
 	fflush(stdout);
